@@ -3,7 +3,9 @@
 //!
 //! stdin line = operations separated by ';' (the syntax ocaml/c11/driver.ml reads):
 //!   O  open a new file (alternating: read end of a fresh pipe / fresh unlinked temp file)
-//!   K<c> close the caller's descriptor slot c     W<c> UnixFd::new(slot c)      B  new message
+//!   K<c> close the caller's descriptor slot c     W<c> UnixFd::new(slot c)      B  new message (native little endian)
+//!   Bb new message built with MessageBuilder::with_byteorder(BigEndian): every index the marshallers store in its
+//!        body, UNIX_FDS and the whole header are big endian on this little-endian host
 //!   P<b>:<shape>:<items>  one push call on body b; items = comma separated h<n> (UnixFd variable n) |
 //!        r<n> (&dyn AsRawFd on slot n) | x (an element whose marshal fails); shape:
 //!        s push_param(item) | t push_param(tuple: (u64,i) / (i,u64,i) / (i,i,i)) | v push_param(Vec<item>)
@@ -15,7 +17,8 @@
 //!        room for 253 descriptors per call, EVERY descriptor of every call kept) and keeps it "in flight".
 //!        :hdr = send buffer shrunk to the kernel minimum and a 40 kB object path, so the first write ends inside the
 //!        header; :bnd = header sized so that the first write ends exactly at the header/body boundary
-//!   I<cs>:<idxs>  the peer crafts a message (signature hhh.., indices idxs) carrying dups of slots cs
+//!   I<cs>:<idxs>[:b]  the peer crafts a message (signature hhh.., indices idxs) carrying dups of slots cs
+//!        (:b = a big-endian frame: header, UNIX_FDS and the `h` indices in big endian)
 //!   V  the peer writes the oldest in-flight message (descriptors attached to the first sendmsg) while
 //!        conn.recv.get_next_message() runs; the received message becomes a new body
 //!   U<b>:<idx>  UnmarshalContext::new(body.get_fds(), ..).read_unixfd via <UnixFd as Unmarshal> on bytes holding idx
@@ -24,7 +27,7 @@
 //!               descriptors (rounded down to a param boundary, reported as "slots"); the descriptors are moved out of the
 //!               decoded Param trees (arrays, structs, dict entries, variants) into variables of the caller
 //!   M<b>        msg.unmarshall_all() (consumes the message; Message.raw_fds is put back into an equal body on success)
-//!   Z<f|p>:<cs>  (last op) a frame with descriptors that cannot be delivered (bad header field / non-zero padding),
+//!   Z<f|p>[b]:<cs>  (last op; b = big-endian frame) a frame with descriptors that cannot be delivered (bad header field / non-zero padding),
 //!               then the connection is dropped; not part of the model: judged by the audit alone
 //!   C<h> clone   Y<h> dup   T<h> take_raw_fd   X<h> drop
 //! Operations naming something that does not exist are skipped ("invalid"), as in the model.
@@ -835,7 +838,15 @@ fn do_send_inner(w: &mut World, b: usize) -> String {
     }
 }
 
-fn do_inject(w: &mut World, cs: &[usize], idxs: &[u32]) -> String {
+fn bo_of(big: bool) -> ByteOrder {
+    if big {
+        ByteOrder::BigEndian
+    } else {
+        ByteOrder::LittleEndian
+    }
+}
+
+fn do_inject(w: &mut World, cs: &[usize], idxs: &[u32], big: bool) -> String {
     for c in cs {
         if w.cfds.get(*c).map(|x| x.is_none()).unwrap_or(true) {
             return "\"res\":\"invalid\"".into();
@@ -854,7 +865,7 @@ fn do_inject(w: &mut World, cs: &[usize], idxs: &[u32]) -> String {
     }
     // a signal whose body is the indices as 'h' values; built with the crate's builder on a scratch
     // body (u32 values under the signature "uuu.."), then re-labelled as descriptors
-    let mut m = MessageBuilder::new().signal("io.verif.C11", "Inj", "/io/verif").build();
+    let mut m = MessageBuilder::with_byteorder(bo_of(big)).signal("io.verif.C11", "Inj", "/io/verif").build();
     m.dynheader.serial = NonZeroU32::new(77);
     for i in idxs {
         m.body.push_param(*i).unwrap();
@@ -914,7 +925,7 @@ fn do_recv(w: &mut World) -> String {
 /// between header and body (unmarshal_next_message fails AFTER the descriptors were moved out).
 /// Then the connection is dropped (a RecvConn with pending fds_in). Whoever holds the received
 /// descriptors has to close them: the audit after this operation sees the result.
-fn do_bad_frame(w: &mut World, kind: char, cs: &[usize]) -> String {
+fn do_bad_frame(w: &mut World, kind: char, big: bool, cs: &[usize]) -> String {
     if w.conn.is_none() || cs.len() > 253 {
         return "\"res\":\"invalid\"".into();
     }
@@ -928,7 +939,7 @@ fn do_bad_frame(w: &mut World, kind: char, cs: &[usize]) -> String {
     let mut ok = false;
     // the signature is the last header field: its length decides whether there is padding before the body
     for extra in 0..8usize {
-        let mut m = MessageBuilder::new().signal("io.verif.C11", "Bad", "/io/verif").build();
+        let mut m = MessageBuilder::with_byteorder(bo_of(big)).signal("io.verif.C11", "Bad", "/io/verif").build();
         m.dynheader.serial = NonZeroU32::new(79);
         for i in 0..cs.len() + extra {
             m.body.push_param(i as u32).unwrap();
@@ -1301,7 +1312,8 @@ fn do_op(w: &mut World, op: &str) -> String {
             None => inv(),
         },
         "B" => {
-            let m = MessageBuilder::new().signal("io.verif.C11", "Sig", "/io/verif").build();
+            let big = arg.trim() == "b";
+            let m = MessageBuilder::with_byteorder(bo_of(big)).signal("io.verif.C11", "Sig", "/io/verif").build();
             w.bods.push(Some(BodyRec { msg: m, shapes: Some(vec![]) }));
             format!("\"res\":\"b:{}\"", w.bods.len() - 1)
         }
@@ -1342,11 +1354,12 @@ fn do_op(w: &mut World, op: &str) -> String {
         }
         "I" => {
             let parts: Vec<&str> = arg.split(':').collect();
-            if parts.len() != 2 {
+            if parts.len() != 2 && parts.len() != 3 {
                 return "\"res\":\"BADOP\"".into();
             }
+            let big = parts.get(2).map(|x| x.trim() == "b").unwrap_or(false);
             match (parse_nums::<usize>(parts[0]), parse_nums::<u32>(parts[1])) {
-                (Some(cs), Some(ix)) => do_inject(w, &cs, &ix),
+                (Some(cs), Some(ix)) => do_inject(w, &cs, &ix, big),
                 _ => "\"res\":\"BADOP\"".into(),
             }
         }
@@ -1354,8 +1367,9 @@ fn do_op(w: &mut World, op: &str) -> String {
         "Z" => {
             let parts: Vec<&str> = arg.split(':').collect();
             let kind = parts.first().and_then(|x| x.trim().chars().next()).unwrap_or('f');
+            let big = parts.first().map(|x| x.trim().ends_with('b')).unwrap_or(false);
             match parse_nums::<usize>(parts.get(1).copied().unwrap_or("-")) {
-                Some(cs) => do_bad_frame(w, kind, &cs),
+                Some(cs) => do_bad_frame(w, kind, big, &cs),
                 None => "\"res\":\"BADOP\"".into(),
             }
         }
